@@ -42,6 +42,7 @@ type FuncContract struct {
 	Modifies []string
 	Loops    []*LoopContract
 	Asserts  []*Clause
+	CallSites []*CallSite // obligations at every call of a named callee inside this function
 	Options  map[string]string
 	File     string
 	Line     int
@@ -84,6 +85,13 @@ type Lemma struct {
 	Opts   map[string]string
 }
 
+// CallSite: `callsite <callee> [label:] expr` — expr over the caller's variables and $arg0.. (the call's arguments)
+type CallSite struct {
+	Callee string
+	C      *Clause
+	Hits   int
+}
+
 type ContractFile struct {
 	Pkg    string
 	Path   string
@@ -96,7 +104,7 @@ type ContractFile struct {
 	NClauses int
 }
 
-var keywordRe = regexp.MustCompile(`^(func|extern|spec|pred|lemma|axiom|requires|ensures|invariant|decreases|loop|modifies|assert|trusted|vars|assume|call|exec|conclude|uses|use|let|order|elems|recv|wf|less|key)\b`)
+var keywordRe = regexp.MustCompile(`^(func|extern|spec|pred|lemma|axiom|requires|ensures|invariant|decreases|loop|modifies|assert|trusted|vars|assume|call|exec|conclude|uses|use|let|callsite|order|elems|recv|wf|less|key)\b`)
 var labelRe = regexp.MustCompile(`^([A-Za-z_][A-Za-z0-9_.]*):([^:].*)$`)
 
 func ParseContractFile(path, pkg string) (*ContractFile, error) {
@@ -280,6 +288,19 @@ func ParseContractFile(path, pkg string) (*ContractFile, error) {
 			case "assert":
 				cur.Asserts = append(cur.Asserts, c)
 			}
+		case "callsite":
+			if cur == nil {
+				return nil, fmt.Errorf("%s:%d: callsite outside func", path, it.line)
+			}
+			f := strings.SplitN(strings.TrimSpace(rest), " ", 2)
+			if len(f) != 2 {
+				return nil, fmt.Errorf("%s:%d: callsite <callee> [label:] expr", path, it.line)
+			}
+			c, err := parseClause("assert", f[1], it.line)
+			if err != nil {
+				return nil, err
+			}
+			cur.CallSites = append(cur.CallSites, &CallSite{Callee: f[0], C: c})
 		case "uses":
 			if cur == nil {
 				return nil, fmt.Errorf("%s:%d: uses outside func", path, it.line)
